@@ -141,15 +141,20 @@ def run(tier, seed, build):
             batch.append(("results", {**snap, "rounds": 1}))
             metas.append((label, kind, vsrc, snap, im, by0, by, feats_all))
     outs = model.batch(batch)
+    not_pinned = set()      # programs on which the implementation no longer behaves like the pinned model
     for (label, kind, vsrc, snap, im, by0, by, feats), mo in zip(metas, outs):
         case = {"label": label, "variant": kind, "source": vsrc}
         if "__error__" in mo or mo.get("outcome") != "ok":
             res.disagreements.append({"case": case, "model": mo})
+            not_pinned.add(label)
         else:
             mm = rl.canon_model_round(mo["rounds"][0])
             ii = rl.strip_calls(im["rounds"][0])
             if mm != ii:
                 res.disagreements.append({"case": case, "impl": ii, "model": mm})
+                not_pinned.add(label)
+    for (label, kind, vsrc, snap, im, by0, by, feats), mo in zip(metas, outs):
+        case = {"label": label, "variant": kind, "source": vsrc}
         if by0 is None:
             continue
         common_names = [n for n in by if n in by0]
@@ -162,6 +167,9 @@ def run(tier, seed, build):
         else:
             f = next((x for x in rl.FEATURE_PRIORITY + ["cycle"] if x in feats), "clean-fragment")
             sig = f"results-depend-on-definition-order-or-unrelated-code:{f}"
+            if label in not_pinned:
+                # a known finding only if the model of the pinned code predicts the same dependence
+                sig = f"results-depend-on-definition-order-or-unrelated-code:not-the-pinned-behaviour:{f}"
             res.count(f"{k0}:differs:{f}")
             res.violations.append({"signature": sig, "case": case, "functions": diff,
                                    "base": {n: by0[n] for n in diff}, "variant": {n: by[n] for n in diff}})
